@@ -523,7 +523,7 @@ func serverWord(w []int, kind string) (cwScenario, bool) {
 				return cwScenario{}, false
 			}
 			returned = true
-			s = append(s, hop(0, HOp{Op: "return", Code: 9, Msg: 7}))
+			s = append(s, hop(0, HOp{Op: "return", Code: []int{1, 4, 9, 10, 13, 14}[(i+len(w))%6], Msg: 7}))
 		}
 	}
 	// whatever state the word leaves: a probe unary call is still answered, then the handler (if any) finishes
@@ -580,6 +580,18 @@ func serverSpecials() []cwScenario {
 			s = append(s, Step{Op: "cli", M: "/verif.Echo/Bidi", Env: trlEnv(0, 0)},
 				Step{Op: "cli", M: "/verif.Echo/Bidi", Env: &EnvSpec{Call: 0, Hdr: "ok:0", Trl: "none", Rst: true}}, u(1, 62))
 			out = append(out, cwScenario{Mode: "server", Steps: s, Tags: []string{"c06", "family:server-special", "what:" + what}})
+		}
+	}
+	// handlers that fail with errors of their own making while the caller is still there: the trailer must be written
+	for v, raw := range []string{"canceled", "deadline", "plain", "eof"} {
+		for _, kind := range []string{"Bidi", "SStream", "CStream"} {
+			m := "/verif.Echo/" + kind
+			s := []Step{{Op: "cli", M: m, Env: &EnvSpec{Call: 0, Hdr: "ok:0", Trl: "none"}}}
+			if v%2 == 0 {
+				s = append(s, Step{Op: "cli", M: m, Env: bodyEnv(0, 10)}, hop(0, HOp{Op: "recv"}), hop(0, HOp{Op: "send", B: 20}))
+			}
+			s = append(s, hop(0, HOp{Op: "return", Raw: raw}), u(1, 62))
+			out = append(out, cwScenario{Mode: "server", Steps: s, Tags: []string{"c06", "family:server-special", "what:handler-raw-error-" + raw}})
 		}
 	}
 	// the handler's own deadline (GRPC-Timeout from a caller that never resets): D-06b
